@@ -41,7 +41,7 @@ m = {
  ],
  "checks": [],
  "not_applicable": [],
- "notes": "All 19 properties are decided by generated-input search against explicit oracles (DESIGN.md). known-findings.txt lists two open findings (C09 in-flight notification after unsubscribe; C13 iterator created after shutdown) and the repaired defects.",
+ "notes": "All 19 properties are decided by generated-input search against explicit oracles (DESIGN.md). known-findings.txt lists two open findings (C09: the notification already in flight may arrive after unsubscribe() returned; C13: the shutdown sweep holds the subscriber-list lock while blocked on an unread iterator) and five repaired defects (fix: commits 0fae376, ee7cc51, 7853abf, 4e55021, 214c4f4 in /repo).",
 }
 for p in props:
     pid = p['id']
